@@ -12,6 +12,10 @@ def plan(ctx):
                                       rem={"R": [["b"], ["a"]]})),
            ("dd-always", sched.mk([["G", "a", "b"], "c"], extra=["x", "y"], always={"G": True}, Tocks=[0], MaxSteps=2 if q else 3, Limit=3, MaxOps=2,
                                   ext={"G": [["x", "y"], ["a", "x", "x"]]}, rem={"G": [["b", "a"], ["x"], ["b", "b"]]})),
+           ("dd-ext-fault", sched.mk([["G", "a", "b"], "c"], extra=["x", "y"], always={"G": True}, Tocks=[0], MaxSteps=2, Limit=3,
+                                     MaxOps=1, EnterOuts=["ok", "x"], MaxFaults=1, ext={"G": [["x", "y"]]})),
+           ("dd-remove-mid", sched.mk([["G", "b", "c", "e"], "d"], Tocks=[0], MaxSteps=3, Limit=3, MaxOps=1,
+                                      rem={"G": [["b", "e"], ["e", "b"], ["e", "c", "b"]]})),
            ("enter-outs", sched.mk(["a", "b"], extra=["x", "y"], Tocks=[0], MaxSteps=3, Limit=3, MaxOps=1, EnterOuts=["ok", "x", "r"],
                                    MaxFaults=1, ext={"R": [["x", "y"]]}, rem={"R": []}))]
     mc = [("nest-ops", sched.mk(sched.NEST, extra=["x", "y", "z"], Tocks=[0, 2], MaxSteps=3, Limit=3 if q else 4, MaxOps=2,
